@@ -40,7 +40,8 @@ CORPUS_DIR = os.path.join(VERIF, "corpus")
 KNOWN_FILE = os.path.join(VERIF, "known_findings.json")
 ALLOWED_AXIOMS = {"propext", "Classical.choice", "Quot.sound"}
 FORBIDDEN = re.compile(
-    r"\bsorry\b|\badmit\b|^\s*axiom\s|native_decide|bv_decide|implemented_by|\bunsafe\s|maxHeartbeats\s+0\b",
+    r"\bsorry\b|\badmit\b|^\s*axiom\s|native_decide|bv_decide|implemented_by|\bunsafe\s|maxHeartbeats\s+0\b"
+    r"|@\[\s*extern|@\[\s*csimp|^\s*opaque\s|skipKernelTC|set_option\s+debug\.",
     re.M,
 )
 
@@ -68,6 +69,13 @@ def _snapshot_driver() -> None:
     import atexit
     import shutil
 
+    for stale in os.listdir(os.path.dirname(DRIVER)):
+        sp = os.path.join(os.path.dirname(DRIVER), stale)
+        if ".run" in stale and time.time() - os.path.getmtime(sp) > 6 * 3600:
+            try:
+                os.remove(sp)
+            except OSError:
+                pass
     dst = f"{DRIVER}.run{os.getpid()}"
     shutil.copy2(DRIVER, dst)
     _DRIVER_RUN = dst
@@ -144,14 +152,26 @@ def lake_build(timeout: int = 3000) -> tuple[bool, str]:
 _AX_RE = re.compile(r"^'([^']+)' (depends on axioms: \[([^\]]*)\]|does not depend on any axioms)", re.M)
 
 
+STATEMENTS_LOCK = os.path.join(VERIF, "lean", "statements.lock.json")
+
+
+def _lean_under_lock(args: list[str], timeout: int) -> subprocess.CompletedProcess:
+    """Run a lean command in LEAN_DIR while holding the build lock (a concurrent lake build rewrites .olean files)."""
+    lock = open(os.path.join(LEAN_DIR, ".lake", "verif.lock"), "w")
+    fcntl.flock(lock, fcntl.LOCK_EX)
+    try:
+        return subprocess.run(args, cwd=LEAN_DIR, capture_output=True, text=True, timeout=timeout)
+    finally:
+        fcntl.flock(lock, fcntl.LOCK_UN)
+        lock.close()
+
+
 def audit(prop: str, theorems: list[str], timeout: int = 900) -> dict:
     """Run lean on Audit/<prop>.lean, return {theorem: [axioms]} for those found."""
     path = os.path.join("IrVerif", "Audit", f"{prop}.lean")
     if not os.path.exists(os.path.join(LEAN_DIR, path)):
         return {"ok": False, "found": {}, "log": f"missing {path}"}
-    p = subprocess.run(
-        ["lake", "env", "lean", path], cwd=LEAN_DIR, capture_output=True, text=True, timeout=timeout
-    )
+    p = _lean_under_lock(["lake", "env", "lean", path], timeout)
     out = p.stdout + p.stderr
     out1 = re.sub(r"\s*\n\s+", " ", out)  # long axiom lists wrap
     found = {}
@@ -159,6 +179,38 @@ def audit(prop: str, theorems: list[str], timeout: int = 900) -> dict:
         axs = [a.strip() for a in (m.group(3) or "").split(",") if a.strip()]
         found[m.group(1)] = axs
     return {"ok": p.returncode == 0, "found": found, "log": out[-3000:]}
+
+
+def statement_hashes(prop: str, theorems: list[str], timeout: int = 900) -> dict[str, str]:
+    """sha256 of the pretty-printed statement (`#check @thm`) of each theorem: pins WHAT is proved, so that a
+    theorem weakened or replaced under the same name is reported as a broken obligation."""
+    src = f"import IrVerif.Props.{prop}\nset_option pp.width 1000000\n" + "".join(
+        f'#eval IO.println "@@STMT {t}"\n#check @{t}\n' for t in theorems
+    )
+    os.makedirs(os.path.join(LEAN_DIR, ".lake", "stmt"), exist_ok=True)
+    tmp = os.path.join(LEAN_DIR, ".lake", "stmt", f"{prop}-{os.getpid()}.lean")
+    with open(tmp, "w") as f:
+        f.write(src)
+    try:
+        p = _lean_under_lock(["lake", "env", "lean", tmp], timeout)
+    finally:
+        os.path.exists(tmp) and os.remove(tmp)
+    res: dict[str, str] = {}
+    chunks = (p.stdout + p.stderr).split("@@STMT ")
+    for ch in chunks[1:]:
+        name, _, rest = ch.partition("\n")
+        body = re.sub(r"\s+", " ", rest.strip())
+        if body and " : " in body and not re.match(r"^\S*\.lean:\d+:\d+: error", body):
+            res[name.strip()] = hashlib.sha256(body.encode()).hexdigest()[:20]
+    return res
+
+
+def load_statement_lock() -> dict:
+    try:
+        with open(STATEMENTS_LOCK) as f:
+            return json.load(f)
+    except FileNotFoundError:
+        return {}
 
 
 def leanchecker(modules: list[str], timeout: int = 3000) -> tuple[bool, str]:
@@ -351,7 +403,7 @@ def exc_kind(e: BaseException) -> str:
 
 def write_replay(prop: str, seed: int, n: int, obj: dict) -> str:
     os.makedirs(REPLAY_DIR, exist_ok=True)
-    path = os.path.join(REPLAY_DIR, f"{prop}-{seed}-{n}.json")
+    path = os.path.join(REPLAY_DIR, f"{prop}-{seed}-{n}.json")  # one run per (property, seed) at a time per output dir
     with open(path, "w") as f:
         json.dump(obj, f, indent=1, default=str)
     return os.path.relpath(path, VERIF)
@@ -388,7 +440,7 @@ def write_evidence(ctx: Ctx, violations: int, assumptions: list[str]) -> None:
         "wall_s": round(ctx.elapsed(), 2),
         "violations": violations,
     }
-    tmp = os.path.join(EVIDENCE_DIR, f".{ctx.prop}.json.tmp")
+    tmp = os.path.join(EVIDENCE_DIR, f".{ctx.prop}.json.{os.getpid()}.tmp")
     with open(tmp, "w") as f:
         json.dump(ev, f, indent=1, default=str)
     os.replace(tmp, os.path.join(EVIDENCE_DIR, f"{ctx.prop}.json"))
@@ -419,6 +471,19 @@ def proof_tier(ctx: Ctx, theorems: list[str]) -> list[str]:
         discharged += 1
     if ok and not res["ok"] and not broken:
         broken.append("audit file failed: " + res["log"][-800:])
+    if ok:
+        lock = load_statement_lock().get(ctx.prop, {})
+        got = statement_hashes(ctx.prop, theorems)
+        for t in theorems:
+            if t not in lock:
+                broken.append(f"theorem {t} has no pinned statement in lean/statements.lock.json (run tools/pin_statements.py)")
+            elif got.get(t) != lock[t]:
+                broken.append(f"statement of theorem {t} differs from the pinned one (lean/statements.lock.json)")
+        for t in lock:
+            if t not in theorems:
+                broken.append(f"pinned theorem {t} is no longer listed in THEOREMS of harness/{ctx.prop.lower()}.py")
+        if any("pinned" in b for b in broken):
+            discharged = 0
     checker_cmd = f"cd lean && lake build && lake env lean IrVerif/Audit/{ctx.prop}.lean"
     if ctx.tier == "thorough" and ok:
         mods = [f"IrVerif.Props.{ctx.prop}"]
@@ -463,6 +528,9 @@ def main(argv: list[str]) -> int:
             for d in ctx.disagreements:
                 print(f"REPLAY-DISAGREE property={prop} {d['what']}")
             return 1 if (ctx.failures or ctx.disagreements) else 0
+        if a.no_proof and not os.environ.get("IRVERIF_OUT_DIR"):
+            print("--no-proof is a development aid: set IRVERIF_OUT_DIR so that the real evidence is not overwritten", file=sys.stderr)
+            return 2
         broken = [] if a.no_proof else proof_tier(ctx, list(mod.THEOREMS))
         if a.no_proof:
             ctx.proof = {"obligations": len(mod.THEOREMS), "discharged": 0, "checker_cmd": "(skipped)"}
